@@ -10,7 +10,6 @@ import (
 	"fmt"
 	"sort"
 
-	"go.etcd.io/raft/v3"
 	pb "go.etcd.io/raft/v3/raftpb"
 )
 
@@ -36,8 +35,10 @@ func (d *Driver) leader() *AppNode {
 	var best *AppNode
 	var bt uint64
 	for _, n := range d.upNodes() {
-		st := n.RN.BasicStatus()
-		if st.RaftState == raft.StateLeader && st.GetTerm() >= bt {
+		if !safeIsLeader(n.RN) {
+			continue
+		}
+		if st := n.RN.BasicStatus(); st.GetTerm() >= bt {
 			best, bt = n, st.GetTerm()
 		}
 	}
@@ -199,9 +200,18 @@ func scStaleLeader(d *Driver) {
 		// the entries stay unstable while the world moves on
 		d.frozenReady[l.ID] = true
 		d.frozenAppend[l.ID] = true
-		for k := 0; k < 1+d.r.Intn(3); k++ {
+		for k := 0; k < 1+d.r.Intn(4); k++ {
 			if d.c.Do(Step{Act: "Propose", Node: l.ID, Pid: d.nextPid, Psz: d.r.Intn(20)}) {
 				d.nextPid++
+			}
+			if l.Cfg.Async && pct(d.r, 70) {
+				// async writes: every batch is handed to the (stalled) append thread and its
+				// messages go out at once, so the followers may end up with a prefix only
+				d.c.Do(Step{Act: "Ready", Node: l.ID})
+				d.c.Do(Step{Act: "Send", Node: l.ID})
+				if pct(d.r, 60) {
+					d.with(calm, 1+d.r.Intn(6))
+				}
 			}
 		}
 		if pct(d.r, 70) {
@@ -248,6 +258,9 @@ func scLaggingSnapshot(d *Driver) {
 		return
 	}
 	f := d.pick(oth)
+	if d.c.Nodes[f].Cfg.Async && pct(d.r, 50) {
+		d.frozenApply[f] = true // its apply thread is slow: committed entries queue up
+	}
 	d.propose(l, 1+d.r.Intn(2), false)
 	d.settle(20 + d.r.Intn(30))
 	if pct(d.r, 40) {
@@ -267,9 +280,6 @@ func scLaggingSnapshot(d *Driver) {
 		}
 	} else {
 		d.isolate([]uint64{f})
-	}
-	if d.c.Nodes[f].Cfg.Async && pct(d.r, 50) {
-		d.frozenApply[f] = true // its apply thread is slow as well
 	}
 	d.propose(l, 3+d.r.Intn(5), pct(d.r, 40))
 	d.settle(40 + d.r.Intn(40))
@@ -414,7 +424,7 @@ func scConfLaggingApplier(d *Driver) {
 		d.with(p, 30+d.r.Intn(40))
 	}
 	for _, n := range d.upNodes() {
-		if n.RN.BasicStatus().RaftState == raft.StateLeader {
+		if safeIsLeader(n.RN) {
 			d.propose(n, 1+d.r.Intn(2), false)
 		}
 	}
@@ -537,34 +547,70 @@ func scPagination(d *Driver) {
 	if l == nil {
 		return
 	}
-	oth := d.others(l.ID)
+	d.wholePct = 30 // interleave deliveries with the sub-steps of Ready handling
+	mixed := func(n *AppNode) { // small, BIG, small ... : entry sizes straddle the limits
+		for k := 0; k < 2+d.r.Intn(3); k++ {
+			psz := 0
+			if k%2 == 1 || pct(d.r, 30) {
+				psz = 30 + d.r.Intn(100)
+			}
+			if d.c.up(n.ID) != nil && d.c.Do(Step{Act: "Propose", Node: n.ID, Pid: d.nextPid, Psz: psz}) {
+				d.nextPid++
+			}
+			if pct(d.r, 60) {
+				d.with(calm, 2+d.r.Intn(8))
+			}
+		}
+	}
 	for round := 0; round < 2+d.r.Intn(3); round++ {
 		ld := d.leader()
-		if ld == nil || len(oth) == 0 {
+		if ld == nil {
 			break
 		}
 		f := d.pick(d.others(ld.ID))
-		// f receives and persists a few entries of mixed size but does not learn that they
-		// are committed; it is then cut off while the others go on
-		d.holdTypes[pb.MsgHeartbeat] = true
-		d.propose(ld, 2+d.r.Intn(3), true)
-		d.with(calm, 10+d.r.Intn(25))
-		d.isolate([]uint64{f})
-		d.releaseHolds()
-		d.with(calm, 20+d.r.Intn(20))
-		d.propose(ld, 1+d.r.Intn(2), pct(d.r, 30))
-		d.with(calm, 20+d.r.Intn(20))
-		// reconnect: the append carrying the newer entry and commit index may be handled
-		// before f gets to its next Ready
-		d.frozenReady[f] = pct(d.r, 70)
-		d.frozenAppend[f] = d.frozenReady[f] && pct(d.r, 50)
-		d.heal()
-		d.with(calm, 10+d.r.Intn(30))
+		if f == 0 {
+			break
+		}
+		switch d.r.Intn(3) {
+		case 0:
+			// f persists entries of mixed size without learning that they are committed, is cut
+			// off, and on reconnect handles the append with the newer entry and commit index
+			// before its next Ready
+			d.holdTypes[pb.MsgHeartbeat] = true
+			mixed(ld)
+			d.with(calm, 10+d.r.Intn(25))
+			d.isolate([]uint64{f})
+			d.releaseHolds()
+			d.with(calm, 20+d.r.Intn(20))
+			d.propose(ld, 1+d.r.Intn(2), false)
+			d.with(calm, 20+d.r.Intn(20))
+			d.frozenReady[f] = pct(d.r, 70)
+			d.frozenAppend[f] = d.frozenReady[f] && pct(d.r, 50)
+			d.heal()
+			d.with(calm, 10+d.r.Intn(30))
+		case 1:
+			// f lags; the leader's newest entries are not yet stable (slow disk) when it
+			// catches f up from the stable part of its log
+			d.isolate([]uint64{f})
+			mixed(ld)
+			d.with(calm, 30+d.r.Intn(30))
+			d.frozenAppend[ld.ID] = true
+			d.frozenReady[ld.ID] = !ld.Cfg.Async && pct(d.r, 50)
+			d.propose(ld, 1+d.r.Intn(2), false)
+			d.heal()
+			p := calm
+			p.Tick = 15
+			d.with(p, 30+d.r.Intn(40))
+		default:
+			mixed(ld)
+			d.with(calm, 20+d.r.Intn(40))
+		}
 		d.unfreeze()
 		d.with(calm, 30+d.r.Intn(30))
 	}
 	d.unfreeze()
 	d.releaseHolds()
+	d.wholePct = 75
 	d.settle(100)
 }
 
@@ -644,9 +690,23 @@ func scReads(d *Driver) {
 		if d.c.Do(Step{Act: "ProposeConfChange", Node: l.ID, Pid: d.nextPid, CC: cc}) {
 			d.nextPid++
 		}
-		d.with(calm, 5+d.r.Intn(50))
-		if pct(d.r, 50) {
-			d.runNode(l.ID) // the leader itself is up to date with the change
+		if pct(d.r, 60) {
+			// cut the leader off at the moment it has committed (and applied) the change, before
+			// the followers learn the new commit index
+			target := uint64(0)
+			if st, perr := safeState(l.RN); perr == "" {
+				target = st.LastIndex
+			}
+			for k := 0; k < 60; k++ {
+				st, perr := safeState(l.RN)
+				if d.c.up(l.ID) == nil || perr != "" || st.Commit >= target {
+					break
+				}
+				d.with(calm, 1)
+			}
+			d.runNode(l.ID)
+		} else {
+			d.with(calm, 5+d.r.Intn(50))
 		}
 		d.isolate([]uint64{l.ID})
 		p.Tick = 30
